@@ -7,7 +7,19 @@ from vlib.ref import trxmodel, trxd
 class AppWorld:
     def __init__(self, defs, ind_period=1, clck_start=0, script=(), choice_mode="lowhigh", choice_default=0):
         self.defs = defs
-        self.app, self.fab = world.make_app(trxmodel.config_argv(defs))
+        argv = trxmodel.config_argv(defs)
+        self.app, self.fab = world.make_app(argv)
+        # the documented port plan: every transceiver listens on its base + 0/1/2 (+ 2 x child index)
+        want = set()
+        for d in defs:
+            want |= {d.ctrl, d.data}
+            if d.clck is not None:
+                want.add(d.clck)
+        got = sorted(p for _, p in self.fab.binds)
+        if sorted(want) != got:
+            from vlib.errors import AppStartFailure
+            raise AppStartFailure(argv, "PortPlan: the application bound the UDP ports %r, the documented plan for this "
+                                  "command line is %r" % (got, sorted(want)), want_ports=sorted(want))
         world.chooser.reset(script, choice_mode, choice_default)
         # constructor parameters of CLCKGen (documented configuration, default 102 / 0)
         self.app.clck_gen.ind_period = ind_period
